@@ -81,7 +81,7 @@ def gen_cases(tier, seed):
         for op in OPS:
             tt = rng.choice(TYPES) if tier == "quick" else None
             for t in ([tt, rng.choice(TYPES)] if tt else TYPES):
-                cases.append({"kind": "arith", "ta": ta, "a": a, "tb": tb, "b": b, "op": op, "tt": t, "form": rng.choice(["plain", "paren"])})
+                cases.append({"kind": "arith", "ta": ta, "a": a, "tb": tb, "b": b, "op": op, "tt": t, "form": rng.choice(["plain", "paren", "byval"])})
     # small operands whose quotients are exact but not whole (3 / 4, 9 / 4, -7 / 8): the computed value has another
     # run-time type than its static type, so the store has to convert it
     for ta in TYPES:
@@ -90,12 +90,12 @@ def gen_cases(tier, seed):
                 for b in (4, 8, -4, 16):
                     for op in OPS + ["/"]:
                         for t in TYPES:
-                            cases.append({"kind": "arith", "ta": ta, "a": a, "tb": tb, "b": b, "op": op, "tt": t, "form": rng.choice(["plain", "paren"])})
+                            cases.append({"kind": "arith", "ta": ta, "a": a, "tb": tb, "b": b, "op": op, "tt": t, "form": rng.choice(["plain", "paren", "byval"])})
     # exact quotients that lie within 0.0001 of a whole number without being one
     for ta in TYPES:
         for a, b in ((1, 16384), (32767, 32768), (-1, 32768), (65537, 65536), (3, 32768)):
             for t in TYPES:
-                cases.append({"kind": "arith", "ta": ta, "a": a if ta != "%" or abs(a) <= 32767 else 1, "tb": "&", "b": b, "op": "/", "tt": t, "form": rng.choice(["plain", "paren"])})
+                cases.append({"kind": "arith", "ta": ta, "a": a if ta != "%" or abs(a) <= 32767 else 1, "tb": "&", "b": b, "op": "/", "tt": t, "form": rng.choice(["plain", "paren", "byval"])})
     for tt in TYPES:
         for what, n in (("len_long", 16383), ("len_long", 16384), ("len_long", 32767), ("instr_long", 16383), ("instr_long", 20000), ("val_int", 400), ("val_int", 320), ("val_frac", 400)):
             cases.append({"kind": "special", "what": what, "n": n, "tt": tt})
@@ -173,6 +173,9 @@ def build(case):
         elif form == "negneg":
             expr = "-(-(" + expr + "))"
         src = "A%s = %s\nB%s = %s\nT%s = %s\nPRINT T%s\n" % (ta, value_expr(ta, a), tb, value_expr(tb, b), tt, expr, tt)
+        if form == "byval":
+            # the computed value is bound to a parameter of the target type (by value: it is an expression)
+            src = "A%s = %s\nB%s = %s\nPV %s\nSUB PV (X%s)\nPRINT X%s\nEND SUB\n" % (ta, value_expr(ta, a), tb, value_expr(tb, b), expr, tt, tt)
         it = Interp({"main": []})
         try:
             r = it.binop(op, (ta, a if ta in "%&" else Fraction(a)), (tb, b if tb in "%&" else Fraction(b)))
